@@ -134,6 +134,9 @@ class P:
                     return ["^", args[0], args[1]]
                 if v == "fmod" and len(args) == 2:
                     return ["mod", args[0], args[1]]
+                if v in ("fmax", "fmin") and len(args) == 2:
+                    # C99 fmax / fmin on non-NaN operands
+                    return ["if", ["rel", "gt" if v == "fmax" else "lt", args[0], args[1]], args[0], args[1]]
                 if v in FUNCS and len(args) == 1:
                     return ["fn", FUNCS[v], args[0]]
                 raise CParseError("call " + v)
